@@ -450,6 +450,13 @@ fn run_exp(sh: &mut shell::Shell,
     (cr_list, false, false)
 }
 
+#[cfg(cicada_verif)]
+pub mod verif {
+    pub fn expand_args(line: &str, args: &[String]) -> String {
+        super::expand_args(line, args)
+    }
+}
+
 #[cfg(test)]
 mod tests {
     use super::expand_args;
